@@ -38,3 +38,12 @@ CLAIMED['C12'] = (
     'DESIGN.md §3 C12')
 for _p in ('C04', 'C05', 'C12'):
     NOT_APPLICABLE.pop(_p, None)
+CLAIMED['C19'] = (
+    'symbolic execution of _split_transitions_events / Transitions.split / Jumps.split on symbolic event times and histories; z3 per-path obligations',
+    'Event tables with symbolic times (and the whole states->events->split->jumps pipeline on symbolic histories) for every (frames, n_parts, rows) '
+    'shape in the bound: every event proved to land in exactly one part, re-based by one non-negative offset per part, parts chronological, part jumps '
+    'a subset of the whole. Trajectory.split checked structurally for every (T, n_parts, equal_parts) in the bound. One listed known finding '
+    '(n_parts > frames-1 raises IndexError) is reported as KNOWN-FINDING.',
+    'Trusts pandas boolean filtering / numpy array_split / linspace as executed, z3. Shapes bounded.',
+    'DESIGN.md §3 C19')
+NOT_APPLICABLE.pop('C19', None)
